@@ -235,7 +235,7 @@ def run_shard(sh):
                         # created by code running in the program's own module, as user code would
                         ctor = rng.choice(["NewType", "TypeAliasType"])
                         name = f"L{tag}_{i}_{abs(hash(s.src)) % 10**6}"
-                        exec(f"{name} = typing.{ctor}({name!r}, {s.src})", prog.module.__dict__)  # noqa: S102
+                        prog.run(f"{name} = typing.{ctor}({name!r}, {s.src})")
                         return getattr(prog.module, name)
                     la, lb = label("a"), label("b")
                     two = [("tuple[La, Lb]", tuple[la, lb]), ("dict[str, La] | Lb", typing.Union[dict[str, la], lb]), ("tuple[La, T, Lb]", tuple[la, s.t, lb]),
@@ -260,11 +260,11 @@ def run_shard(sh):
                         check_root(sh, src, T2, steps, prog.source)
                 # parameterised user generics: fields declared in __init__ only, and as a dataclass
                 if comps or gens:
-                    exec(f"_T{i} = typing.TypeVar('_T{i}')\n_U{i} = typing.TypeVar('_U{i}')\n"  # noqa: S102
+                    prog.run(f"_T{i} = typing.TypeVar('_T{i}')\n_U{i} = typing.TypeVar('_U{i}')\n"
                          f"class GP_{i}(typing.Generic[_T{i}, _U{i}]):\n"
                          f"    def __init__(self, first: _T{i}, rest: typing.List[_U{i}], tag: typing.Dict[str, bytes]):\n"
                          f"        self.first, self.rest, self.tag = first, rest, tag\n"
-                         f"@dataclasses.dataclass\nclass GD_{i}(typing.Generic[_T{i}]):\n    item: _T{i}\n    items: typing.List[_T{i}]\n", prog.module.__dict__)
+                         f"@dataclasses.dataclass\nclass GD_{i}(typing.Generic[_T{i}]):\n    item: _T{i}\n    items: typing.List[_T{i}]\n")
                     s0 = rng.choice(comps or gens)
                     for src in rng.sample([f"GP_{i}[int, {s0.src}]", f"list[GP_{i}[{s0.src}, str]]", f"GD_{i}[{s0.src}]", f"dict[str, GD_{i}[{s0.src}]]",
                                            f"tuple[GD_{i}[int], GD_{i}[{s0.src}]]"], 3):
